@@ -65,6 +65,10 @@ CHECKS = {
  'C18': dict(level='exploration', ref='3/C18', technique='run-time monitor of printed __LINE__/__FILE__ against the generator line table == gcc == clang; diagnostic-location monitor on cc1 executions with planted errors; parser of .file/.loc records in -S output checked against the token-carrying physical lines',
              text='Probe statements are spread over a main file and up to two headers and separated by random blank lines, line and block comments (multi-line, with splices, `/*/`), backslash-newlines between and inside tokens, CR-LF and lone-CR line ends, nested probe macros and multi-line invocations. Because one miscounted line shifts everything after it, every probe after a transformation is checked. One third of the files carry a planted undefined identifier (plain, macro body, macro argument, pasted, next to #) whose diagnostic must name the planting line; every .loc record must point at a line that carries a token.',
              note='generator line table cross-checked against gcc == clang (disagreeing probes discarded); #line only in the dedicated probe of the open finding pinned by test/line.c; diagnostics inside macros may name definition or invocation line'),
+
+ 'C11': dict(level='exploration', ref='3/C11', technique='exhaustive ASan/UBSan harness around unicode.c (codec round trip vs reference encoder, identifier classes vs Annex D typed from the standard) + differential execution monitor for literal values/types/bytes vs Python C11 ladder / Python codecs == gcc == clang, repeated under BOM/CRLF/CR/splice transformations',
+             text='The integer-literal typing ladder is walked as a grid (5 base spellings x 23 suffix spellings x 45 magnitudes at every threshold +-1); character constants and strings cover simple/octal/hex/universal escapes, all prefixes and every defined concatenation pair. All 1 112 064 Unicode scalar values go through encode_utf8/decode_utf8/is_ident1/is_ident2 (exhaustive sub-space, ~1 s); through the real compiler, code points at every plane, surrogate and encoding-length boundary plus random ones (thorough: all) are checked in U"", u"", u8"", "" and L"" arrays and character constants.',
+             note='gcc == clang + Python codecs trusted; implementation-defined constants (multi-character, non-ASCII plain char) not generated'),
 }
 REASON_WIP = 'check not built yet in this session (planned, see DESIGN.md section 3); will be claimed once its monitor is silent on the unchanged tree'
 
